@@ -122,7 +122,9 @@ func ssGdef() *gdef.Table {
 	return &gdef.Table{
 		GlyphClass: classdef.Table{ssA: gdef.GlyphClassBase, ssB: gdef.GlyphClassBase, ssC: gdef.GlyphClassBase, ssD: gdef.GlyphClassBase,
 			ssL: gdef.GlyphClassLigature, ssL2: gdef.GlyphClassLigature,
-			ssM: gdef.GlyphClassMark, ssM2: gdef.GlyphClassMark, ssM3: gdef.GlyphClassMark},
+			ssM: gdef.GlyphClassMark, ssM2: gdef.GlyphClassMark, ssM3: gdef.GlyphClassMark,
+			// class 4 (component) and classes outside the format: no lookup flag may skip them
+			ssU + 1: gdef.GlyphClassComponent, ssU + 2: 5, ssU + 3: 255},
 		MarkAttachClass: classdef.Table{ssM: 1, ssM2: 2, ssM3: 1},
 		MarkGlyphSets:   []coverage.Set{{ssM: true}, {ssM2: true, ssM3: true}},
 	}
@@ -160,6 +162,12 @@ func (g *ssGen) classGlyph(cls int) glyph.ID {
 		return glyph.ID(Pick(g.r, []int{ssL, ssL2}))
 	case 3:
 		return glyph.ID(Pick(g.r, []int{ssM, ssM2, ssM3}))
+	case 4:
+		return ssU + 1
+	case 5:
+		return ssU + 2
+	case 6:
+		return ssU + 3
 	}
 	return ssU
 }
@@ -178,7 +186,7 @@ func ssText(gids []glyph.ID) []glyph.Info {
 func (g *ssGen) flagsByClass() *shpCase {
 	r := g.r
 	fl, set := g.ssFlags()
-	cls := []int{r.Intn(4), r.Intn(4), r.Intn(4)}
+	cls := []int{r.Intn(7), r.Intn(7), r.Intn(7)} // GDEF classes 0-4, 5 and 255
 	g0, g1, g2 := g.classGlyph(cls[0]), g.classGlyph(cls[1]), g.classGlyph(cls[2])
 	g.c.Stat("obligation: flags x class (first,middle,last)", fmt.Sprintf("flags=%#06x classes=%d%d%d", int(fl), cls[0], cls[1], cls[2]))
 	var st gtab.Subtable
@@ -826,6 +834,119 @@ func ssAxisCase(idx int) (*shpCase, string) {
 	return c, fmt.Sprintf("mark-to-mark=%v base anchor (%d,%d) mark anchor (%d,%d)", mkmk, ba.X, ba.Y, ma.X, ma.Y)
 }
 
+// ---------------------------------------------------------------- family: every GDEF class under every flag subset
+//
+// A glyph X of GDEF class 0, 1, 2, 3, 4 (component), 5, 255 under each of the eight subsets of the
+// ignore bits: X between the components of a ligature ("A X B": skipped X lets "A B" match), X as
+// the target of a single substitution, X as the second glyph of a pair.
+var ssClassValues = []uint16{0, 1, 2, 3, 4, 5, 255}
+
+const ssClassCount = 7 * 8
+
+func ssClassCase(idx int) (*shpCase, string) {
+	cls := ssClassValues[idx%7]
+	idx /= 7
+	fl := gtab.LookupFlags(idx%8) << 1
+	const X = glyph.ID(ssU + 4)
+	gd := ssGdef()
+	if cls != 0 {
+		gd.GlyphClass[X] = cls
+	}
+	ll := gtab.LookupList{
+		ssLookup(4, fl, 0, &gtab.Gsub4_1{Cov: coverage.Table{ssA: 0}, Repl: [][]gtab.Ligature{{{In: []glyph.ID{ssB}, Out: ssL}, {In: []glyph.ID{X, ssB}, Out: ssL2}}}}),
+		ssLookup(1, fl, 0, &gtab.Gsub1_2{Cov: coverage.Table{ssB: 0, X: 1}, SubstituteGlyphIDs: []glyph.ID{ssC, ssD}}),
+		ssLookup(2, fl, 0, gtab.Gpos2_1{glyph.Pair{Left: ssA, Right: ssB}: &gtab.PairAdjust{First: &gtab.GposValueRecord{XAdvance: -20}},
+			glyph.Pair{Left: ssA, Right: X}: &gtab.PairAdjust{First: &gtab.GposValueRecord{XAdvance: -30}}}),
+	}
+	c := &shpCase{ll: ll, gd: gd, lookups: []gtab.LookupIndex{0, 1, 2}}
+	for _, gids := range [][]glyph.ID{{ssA, X, ssB}, {X}, {ssA, X, X, ssB, X}, {X, ssA, ssB}, {ssA, X, ssA, ssB}} {
+		c.hist = append(c.hist, ssText(gids))
+	}
+	return c, fmt.Sprintf("GDEF class %d, ignore bits %#x", cls, int(fl))
+}
+
+// ---------------------------------------------------------------- family: length change inside, ignored glyphs behind
+//
+// Every contextual format under IgnoreMarks, input "A" or "A A", optional lookahead B (chained
+// formats), k = 0..3 ignored glyphs directly behind the matched input, and a nested lookup (flags 0)
+// at the last input glyph that shortens ("A m" -> A, "A m m" -> A) or lengthens (A -> A A, A -> A m A)
+// the sequence so that the context would match the result AGAIN: the scan must resume behind the
+// (moved) end of the finished match.
+const ssResumeCount = 6 * 4 * 4 * 2 * 2
+
+func ssMkParent(pf int, fl gtab.LookupFlags, n int, la bool, acts []gtab.SeqLookup) *gtab.LookupTable {
+	rest := make([]glyph.ID, n-1)
+	cls := make([]uint16, n-1)
+	sets := make([]coverage.Set, n)
+	for i := range rest {
+		rest[i], cls[i] = ssA, 1
+	}
+	for i := range sets {
+		sets[i] = coverage.Set{ssA: true}
+	}
+	cd := classdef.Table{ssA: 1, ssB: 2}
+	var lag []glyph.ID
+	var lac []uint16
+	var las []coverage.Set
+	if la {
+		lag, lac, las = []glyph.ID{ssB}, []uint16{2}, []coverage.Set{{ssB: true}}
+	}
+	switch pf {
+	case 51:
+		return ssLookup(5, fl, 0, &gtab.SeqContext1{Cov: coverage.Table{ssA: 0}, Rules: [][]*gtab.SeqRule{{{Input: rest, Actions: acts}}}})
+	case 52:
+		return ssLookup(5, fl, 0, &gtab.SeqContext2{Cov: coverage.Table{ssA: 0}, Input: cd, Rules: [][]*gtab.ClassSeqRule{{}, {{Input: cls, Actions: acts}}}})
+	case 53:
+		return ssLookup(5, fl, 0, &gtab.SeqContext3{Input: sets, Actions: acts})
+	case 61:
+		return ssLookup(6, fl, 0, &gtab.ChainedSeqContext1{Cov: coverage.Table{ssA: 0}, Rules: [][]*gtab.ChainedSeqRule{{{Input: rest, Lookahead: lag, Actions: acts}}}})
+	case 62:
+		return ssLookup(6, fl, 0, &gtab.ChainedSeqContext2{Cov: coverage.Table{ssA: 0}, Backtrack: cd, Input: cd, Lookahead: cd,
+			Rules: [][]*gtab.ChainedClassSeqRule{{}, {{Input: cls, Lookahead: lac, Actions: acts}}}})
+	}
+	return ssLookup(6, fl, 0, &gtab.ChainedSeqContext3{Input: sets, Lookahead: las, Actions: acts})
+}
+
+func ssResumeCase(idx int) (*shpCase, string) {
+	pf := []int{51, 52, 53, 61, 62, 63}[idx%6]
+	idx /= 6
+	k := idx % 4
+	idx /= 4
+	kind := idx % 4
+	idx /= 4
+	n := 1 + idx%2
+	idx /= 2
+	la := idx%2 == 1
+	acts := []gtab.SeqLookup{{SequenceIndex: uint16(n - 1), LookupListIndex: gtab.LookupIndex(1 + kind)}}
+	ll := gtab.LookupList{
+		ssMkParent(pf, gtab.IgnoreMarks, n, la, acts),
+		ssLookup(4, 0, 0, &gtab.Gsub4_1{Cov: coverage.Table{ssA: 0}, Repl: [][]gtab.Ligature{{{In: []glyph.ID{ssM}, Out: ssA}}}}),
+		ssLookup(4, 0, 0, &gtab.Gsub4_1{Cov: coverage.Table{ssA: 0}, Repl: [][]gtab.Ligature{{{In: []glyph.ID{ssM, ssM}, Out: ssA}, {In: []glyph.ID{ssM}, Out: ssA}}}}),
+		ssLookup(2, 0, 0, &gtab.Gsub2_1{Cov: coverage.Table{ssA: 0}, Repl: [][]glyph.ID{{ssA, ssA}}}),
+		ssLookup(2, 0, 0, &gtab.Gsub2_1{Cov: coverage.Table{ssA: 0}, Repl: [][]glyph.ID{{ssA, ssM, ssA}}}),
+	}
+	unit := []glyph.ID{}
+	for i := 0; i < n; i++ {
+		unit = append(unit, ssA)
+	}
+	for i := 0; i < k; i++ {
+		unit = append(unit, ssM)
+	}
+	c := &shpCase{ll: ll, gd: ssGdef(), lookups: []gtab.LookupIndex{0}}
+	cat := func(parts ...[]glyph.ID) []glyph.ID {
+		var out []glyph.ID
+		for _, p := range parts {
+			out = append(out, p...)
+		}
+		return out
+	}
+	b := []glyph.ID{ssB}
+	for _, gids := range [][]glyph.ID{unit, cat(unit, b), cat(unit, unit), cat(unit, b, unit, b), cat(b, unit, unit, b), cat([]glyph.ID{ssM}, unit, []glyph.ID{ssA})} {
+		c.hist = append(c.hist, ssText(gids))
+	}
+	return c, fmt.Sprintf("parent %d, %d ignored behind, nested kind %d, input %d, lookahead=%v", pf, k, kind, n, la)
+}
+
 // positioning: value records, pairs (both formats), mark-to-base, mark-to-mark on
 // base + marks clusters with advances.
 func (g *ssGen) positioning() *shpCase {
@@ -1041,6 +1162,16 @@ func areaShapeSpec(c *Ctx) {
 		sc, what := ssEdgeCase(i)
 		c.Stat("obligation: ignored glyphs at the edges", what)
 		emit(sc, "edge family")
+	}
+	for i := 0; i < ssClassCount; i++ {
+		sc, what := ssClassCase(i)
+		c.Stat("obligation: GDEF class x ignore bits", what)
+		emit(sc, "class family")
+	}
+	for i := 0; i < ssResumeCount; i++ {
+		sc, what := ssResumeCase(i)
+		c.Stat("obligation: length change with ignored glyphs behind the input", what[:9])
+		emit(sc, "resume family")
 	}
 	for i := 0; i < ssAxisCount; i++ {
 		sc, what := ssAxisCase(i)
